@@ -1011,6 +1011,103 @@ def specialise_overridden_helpers(modname, tree, inv):
     return made
 
 
+
+# ----------------------------------------------------------------------------- closures
+NESTED_FILE = os.path.join(HERE, "inventory_nested.json")
+_nested = None
+
+
+def nested_inventory():
+    """'module[.Class].function::nested' of every function nested directly in a function of the reference tree"""
+    global _nested
+    if _nested is None:
+        try:
+            with open(NESTED_FILE) as f:
+                _nested = set(json.load(f))
+        except (OSError, ValueError):
+            _nested = None
+    return _nested
+
+
+def nested_names(modname, tree):
+    out = []
+    for prefix, node, funcs in _scopes(modname, tree):
+        for f in funcs:
+            for st in f.body:
+                if isinstance(st, (ast.FunctionDef, ast.AsyncFunctionDef)):
+                    out.append("%s.%s::%s" % (prefix, f.name, st.name))
+    return out
+
+
+def lift_new_closures(modname, tree):
+    """A block extracted into a NEW nested function (one the reference tree does not have) that is only ever called, does not
+    yield and rebinds nothing of its host: it becomes a module-level private helper that takes the host's locals it reads as
+    extra parameters, and inline_new_helpers then puts it back where it is called.  Returns the lifted names."""
+    ninv = nested_inventory()
+    if ninv is None:
+        return []
+    lifted = []
+    for prefix, node, funcs in list(_scopes(modname, tree)):
+        for f in funcs:
+            for g in [st for st in f.body if isinstance(st, ast.FunctionDef)]:
+                if "%s.%s::%s" % (prefix, f.name, g.name) in ninv or g.decorator_list:
+                    continue
+                a = g.args
+                if a.vararg or a.kwarg or a.kwonlyargs or a.defaults or getattr(a, "posonlyargs", []):
+                    continue
+                hy = _HasYield()
+                for st in g.body:
+                    hy.visit(st)
+                if hy.found or any(isinstance(x, (ast.Nonlocal, ast.Global, ast.FunctionDef, ast.Lambda, ast.ClassDef)) for st in g.body for x in ast.walk(st)):
+                    continue
+                uses = [x for x in ast.walk(f) if isinstance(x, ast.Name) and x.id == g.name]
+                calls = [x for x in ast.walk(f) if isinstance(x, ast.Call) and isinstance(x.func, ast.Name) and x.func.id == g.name]
+                inner = [x for st in g.body for x in ast.walk(st) if isinstance(x, ast.Name) and x.id == g.name]
+                if not calls or len(uses) != len(calls) or inner:
+                    continue
+                gparams = set(x.arg for x in a.args)
+                gstores = set(x.id for st in g.body for x in ast.walk(st) if isinstance(x, ast.Name) and isinstance(x.ctx, (ast.Store, ast.Del)))
+                gloads = set(x.id for st in g.body for x in ast.walk(st) if isinstance(x, ast.Name) and isinstance(x.ctx, ast.Load))
+                fparams = set(x.arg for x in f.args.args + f.args.kwonlyargs + getattr(f.args, "posonlyargs", []))
+                if f.args.vararg:
+                    fparams.add(f.args.vararg.arg)
+                if f.args.kwarg:
+                    fparams.add(f.args.kwarg.arg)
+                fstores = {}
+                for st in f.body:
+                    if st is g:
+                        continue
+                    for x in ast.walk(st):
+                        if isinstance(x, ast.Name) and isinstance(x.ctx, ast.Store):
+                            fstores[x.id] = fstores.get(x.id, 0) + 1
+                free = sorted(v for v in (gloads - gparams - gstores) if v in fparams or v in fstores)
+                if any(fstores.get(v, 0) > 1 or (v in fparams and v in fstores) for v in free):
+                    continue            # a captured local is re-bound: the closure reads the binding current at the call
+                if gstores & (fparams | set(fstores)) - gparams:
+                    pass                # plain assignment in g makes the name local to g: nothing of the host is re-bound
+                newname = "_%s__lifted_%s" % (g.name.lstrip("_"), f.name.strip("_"))
+                newfn = ast.FunctionDef(name=newname,
+                                        args=ast.arguments(posonlyargs=[], args=list(a.args) + [ast.arg(arg=v) for v in free], vararg=None,
+                                                           kwonlyargs=[], kw_defaults=[], kwarg=None, defaults=[]),
+                                        body=g.body, decorator_list=[], returns=None, type_comment=None)
+                if hasattr(g, "type_params"):
+                    newfn.type_params = []
+                ast.copy_location(newfn, g)
+                for c in calls:
+                    c.func = ast.copy_location(ast.Name(id=newname, ctx=ast.Load()), c.func)
+                    c.args = list(c.args) + [ast.copy_location(ast.Name(id=v, ctx=ast.Load()), c) for v in free]
+                f.body = [st for st in f.body if st is not g] or [ast.copy_location(ast.Pass(), g)]
+                # before the top-level statement that holds the host
+                top = None
+                for i_, st in enumerate(tree.body):
+                    if any(x is f for x in ast.walk(st)):
+                        top = i_
+                        break
+                tree.body.insert(top if top is not None else len(tree.body), newfn)
+                ast.fix_missing_locations(newfn)
+                lifted.append("%s.%s::%s" % (prefix, f.name, g.name))
+    return lifted
+
 def apply(modname, tree, drop=True):
     inv = inventory()
     if not inv:
@@ -1023,6 +1120,9 @@ def apply(modname, tree, drop=True):
     if spec:
         info["specialised"] = spec
     gen = inline_generator_collectors(modname, tree, inv)
+    lifted = lift_new_closures(modname, tree)
+    if lifted:
+        info["lifted_closures"] = lifted
     inl = inline_new_helpers(modname, tree, inv)
     if gen:
         inl = list(inl) + gen
